@@ -146,6 +146,8 @@ type poolRun struct {
 	findings []scen.Finding
 	dialBad  []string
 	stats    map[string]int64
+	// addresses on which a single connection was reset (calls may fail there)
+	resetAddrs map[string]bool
 }
 
 func (r *poolRun) now() time.Duration { return time.Since(r.t0) }
@@ -155,6 +157,12 @@ func (r *poolRun) bad(prop, fsig, what string) {
 	if len(r.findings) < 12 {
 		r.findings = append(r.findings, scen.Finding{Prop: prop, FSig: fsig, What: what + " [" + r.p.String() + "]"})
 	}
+	r.mu.Unlock()
+}
+
+func (r *poolRun) stat(k string) {
+	r.mu.Lock()
+	r.stats[k]++
 	r.mu.Unlock()
 }
 
@@ -235,7 +243,7 @@ func (r *poolRun) doCall(addrIdx int, form string, delay time.Duration, counter 
 
 func runPool(p poolParams) *scen.Outcome {
 	out := &scen.Outcome{Stats: map[string]int64{}}
-	r := &poolRun{p: p, t0: time.Now(), rng: rand.New(rand.NewSource(p.seed)), stats: out.Stats}
+	r := &poolRun{p: p, t0: time.Now(), rng: rand.New(rand.NewSource(p.seed)), stats: out.Stats, resetAddrs: map[string]bool{}}
 	r.net = memnet.New(p.seed)
 	r.net.Tap = true
 	effMax, effIdle := p.effLimits()
@@ -308,7 +316,7 @@ func runPool(p poolParams) *scen.Outcome {
 		for atomic.LoadInt32(&stopSnap) == 0 {
 			time.Sleep(250 * time.Millisecond)
 			for addr, v := range r.tr.VerifPool() {
-				out.Stats["h3_snapshots"]++
+				r.stat("h3_snapshots")
 				if v[1] > effIdle {
 					r.bad("C13", "C13/pool/idle-limit", fmt.Sprintf("at +%v the transport holds %d idle connections to %s, limit %d", r.now(), v[1], addr, effIdle))
 				}
@@ -381,7 +389,32 @@ func runPool(p poolParams) *scen.Outcome {
 				for i := 0; i < 6+r.rnd(10); i++ {
 					time.Sleep(time.Duration(200+r.rnd(2500)) * time.Millisecond)
 					r.tr.CloseIdleConnections()
-					out.Stats["close_idle_calls"]++
+					r.stat("close_idle_calls")
+				}
+			}()
+		}
+		if p.run%3 != 0 {
+			// single connections are reset under the transport while the server
+			// stays up and keeps accepting (a dropped link, not a dead server)
+			atomic.AddInt32(&running, 1)
+			go func() {
+				defer atomic.AddInt32(&running, -1)
+				for i := 0; i < 2+r.rnd(6); i++ {
+					time.Sleep(time.Duration(100+r.rnd(3000)) * time.Millisecond)
+					var live []*memnet.Pair
+					for _, pr := range r.net.Pairs() {
+						if cc, _ := pr.ClosedBy(); !cc && !pr.Broken() {
+							live = append(live, pr)
+						}
+					}
+					if len(live) > 0 {
+						pr := live[r.rnd(len(live))]
+						pr.Break([]string{memnet.KindReset, memnet.KindEOF}[r.rnd(2)])
+						r.mu.Lock()
+						r.resetAddrs[pr.Addr] = true
+						r.mu.Unlock()
+						r.stat("connection_resets")
+					}
 				}
 			}()
 		}
@@ -547,6 +580,8 @@ func runPool(p poolParams) *scen.Outcome {
 			if c.kind == "call" && !c.okReply {
 				r.bad("C01", "C01/pool/wrong-reply", fmt.Sprintf("call %s returned a reply that is not f(args)", c.id))
 			}
+		case !down && !afterKill && r.resetAddrs[r.srvs[c.addr].addr]:
+			out.Stats["failed_on_address_with_reset_connection"]++
 		case !down && !afterKill:
 			// The server was healthy for the whole call and had never been
 			// killed. C15 is violated iff the request (or, for a stream, its
